@@ -26,6 +26,7 @@
 
 #include "clang/AST/ASTConsumer.h"
 #include "clang/AST/ASTContext.h"
+#include "clang/AST/ParentMapContext.h"
 #include "clang/AST/DeclCXX.h"
 #include "clang/AST/DeclTemplate.h"
 #include "clang/AST/ExprCXX.h"
@@ -300,6 +301,19 @@ public:
                     VO["name"] = VD->getNameAsString();
                     VO["type"] = tyStr(VD->getType());
                     if (VD->hasInit()) VO["init"] = child(VD->getInit(), Ids, depth);
+                    // end of the enclosing block: the variable (e.g. a lock guard) lives until there
+                    {
+                        auto Ps = Ctx.getParents(*DS);
+                        int hops = 0;
+                        while (!Ps.empty() && hops < 4) {
+                            if (const auto* CS = Ps[0].get<CompoundStmt>()) {
+                                VO["scope_end"] = locStr(CS->getRBracLoc());
+                                break;
+                            }
+                            if (const auto* PS = Ps[0].get<Stmt>()) { Ps = Ctx.getParents(*PS); } else { break; }
+                            ++hops;
+                        }
+                    }
                     if (auto* DD = dyn_cast<DecompositionDecl>(VD)) {
                         llvm::json::Array Bs;
                         for (auto* B : DD->bindings()) {
